@@ -98,7 +98,29 @@ RULE = ("index expressions drawn from the grammar: full tuples of integers (nega
         "pairs, apply_mask with 1..6 rows; order 1..5, singleton modes frequent, ranks up to 3, float64/complex128/float32; result shape and every value compared "
         "exactly with torch indexing of the dense array; non-trivial = interior rank > 1; distinct = (structure, dtype)")
 
+def exhaustive_tuples(rng):
+    """thorough tier: EVERY index tuple over a small item alphabet (two integers, five slices) for every shape of order 1..3 with mode sizes 1..3,
+    plus the same tuples with a leading / trailing Ellipsis replacing a run of full slices and with one None inserted at every position"""
+    import itertools, torch
+    out = []
+    alphabet = lambda n: [("i", 0), ("i", -1), ("s", None, None, None), ("s", 0, 1, None), ("s", 1, None, None), ("s", None, None, 2), ("s", -2, None, None)]
+    for d in (1, 2, 3):
+        for N in itertools.product((1, 2, 3), repeat=d):
+            x = Lit3(ttgen.rand_tt_cores(rng, list(N), ttgen.rand_ranks(rng, d, 2), False, -2, 2))
+            for items in itertools.product(*[alphabet(n) for n in N]):
+                items = list(items)
+                if any(it[0] == "s" and slice_len(n, it) == 0 for it, n in zip(items, N)): continue
+                out.append((Get(x, items), "exhaustive-tuple", torch.float64, coqrun.Z))
+                if d >= 2 and items[0] == ("s", None, None, None): out.append((Get(x, [("e",)] + items[1:]), "exhaustive-ellipsis", torch.float64, coqrun.Z))
+                if d >= 2 and items[-1] == ("s", None, None, None): out.append((Get(x, items[:-1] + [("e",)]), "exhaustive-ellipsis", torch.float64, coqrun.Z))
+                if sum(1 for it in items if it[0] == "s") >= 1:
+                    k = rng.randrange(d + 1)
+                    out.append((Get(x, items[:k] + [("n",)] + items[k:]), "exhaustive-none", torch.float64, coqrun.Z))
+    return out
+
 def run(tier, seed, replay=None):
     import torch
     dtypes = [(torch.float64, coqrun.Z), (torch.complex128, coqrun.ZI), (torch.float64, coqrun.Z), (torch.float32, coqrun.Z)]
-    return exprcheck.run(PID, tier, seed, gen_case, 500, 8000, RULE, nontrivial, dtypes, key_of=key_of)
+    return exprcheck.run(PID, tier, seed, gen_case, 500, 8000, RULE + ("; thorough tier additionally enumerates EVERY index tuple over a 7-item alphabet for all shapes of "
+                         "order 1..3 with mode sizes 1..3 (with Ellipsis and None variants)" if tier == "thorough" else ""), nontrivial, dtypes, key_of=key_of,
+                         extra_cases=exhaustive_tuples if tier == "thorough" else None)
